@@ -38,9 +38,27 @@ def generate(gen, tier):
     n = 300 if tier == 'quick' else 12000
     cases = []
     for i in range(n):
-        cls = rng.choices(['suffix', 'variant', 'suffix+variant', 'nested', 'near', 'unrelated', 'same', 'near+variant', 'rename'],
-                          weights=[20, 15, 20, 20, 12, 5, 5, 8, 8])[0]
-        if cls == 'nested':
+        cls = rng.choices(['suffix', 'variant', 'suffix+variant', 'nested', 'near', 'unrelated', 'same', 'near+variant', 'rename',
+                           'custom'],
+                          weights=[20, 15, 20, 20, 12, 5, 5, 8, 8, 6])[0]
+        if cls == 'custom':
+            # registered classes on both sides: equal / different metadata, different arity, and full trees whose
+            # flatten function misbehaves (prefix_errors goes through tree_flatten_one_level, flatten_up_to does not)
+            cfg = gen.cfg(pred=0)
+            c = rng.choice([0, 0, 3] + ([2] if cfg[2] == 'a' else []) + ([4] if cfg[2] == 'b' else []))
+            kids = [gen.leaf(0) for _ in range(rng.choice([1, 2, 3]))]
+            m1 = gen.md()
+            m2 = m1 if rng.random() < 0.5 else gen.md()
+            kids_f = [rng.choice([k, [A('T'), gen.leaf(0), gen.leaf(0)]]) for k in kids]
+            if rng.random() < 0.2:
+                kids_f = kids_f[:-1] if len(kids_f) > 1 and rng.random() < 0.5 else kids_f + [gen.leaf(0)]
+            q = rng.choice(['ok', 'ok', 'ok', 'len1', 'len4', 'ent-', 'ent+', 'chNI',
+                            'enNI'])
+            p = [A('U'), c, m1, A('ok'), *kids]
+            f = [A('U'), c, m2, A(q), *kids_f]
+            if rng.random() < 0.5:
+                p, f = [A('l'), gen.leaf(0), p], [A('l'), gen.leaf(0), f]
+        elif cls == 'nested':
             p = nested_dict_pair(gen)
             # the prefix keeps only the top of each child
             f = vary_dicts(gen, substitute_leaves(gen, p, 0.3, 1), p_kind=0.3, p_order=0.9)
@@ -85,8 +103,15 @@ def generate(gen, tier):
                 f = relabel_leaves(gen, p)
         sp, sf = [A('structure'), cfg, p], [A('structure'), cfg, f]
         lines = [op('flatten_up_to', sp, f), op('is_prefix', sp, sf, A('0')), op('is_prefix', sp, sf, A('1')),
-                 op('is_prefix', sf, sp, A('0')), op('is_enc', sp), op('is_enc', sf)]
+                 op('is_prefix', sf, sp, A('0')), op('is_enc', sp), op('is_enc', sf),
+                 op('prefix_errors', cfg, p, f)]
         cases.append({'lines': lines, 'o': {'cfg': render(cfg), 'p': render(p), 'f': render(f), 'class': cls}})
+    # class relations the model universe does not have (sub-classes of namedtuple classes, look-alike classes, struct
+    # sequences): the three implementations and tree_map with a rest must all agree with "same exact type"
+    for wrap in range(4):
+        for nil in (False, True):
+            cases.append({'lines': [], 'o': {'class': 'zoo', 'zoo': wrap, 'nil': nil, 'p': '(L 0 0)', 'f': '(L 0 0)',
+                                              'cfg': '-'}})
     return cases
 
 
@@ -101,6 +126,8 @@ def to_ordered(t):
 
 
 def nontrivial(case):
+    if case['o'].get('class') == 'zoo':
+        return True
     p = parse(case['o']['p'])
     return not isinstance(p, Atom) and p[0] != 'L'
 
@@ -137,8 +164,49 @@ def get_by_path(tree, path, ns):
     return x
 
 
+def _zoo(o):
+    import collections
+    import time
+    import optree
+    A_ = collections.namedtuple('A_', ['x', 'y'])
+    B_ = type('B_', (A_,), {'__slots__': ()})                  # a namedtuple class inheriting from another
+    C_ = collections.namedtuple('C_', ['x', 'y'])              # look-alike, unrelated
+    D_ = collections.namedtuple('A_', ['x', 'y'])              # same name, same fields, another class
+    zoo = [('A', lambda: A_(1, 2)), ('B(A)', lambda: B_(1, 2)), ('C', lambda: C_(1, 2)), ('A-twin', lambda: D_(1, 2)),
+           ('tuple', lambda: (1, 2)), ('list', lambda: [1, 2]), ('deque', lambda: collections.deque([1, 2])),
+           ('deque-maxlen', lambda: collections.deque([1, 2], maxlen=5)),
+           ('struct_time', lambda: time.struct_time(range(9))), ('tuple9', lambda: tuple(range(9)))]
+    wrap = [lambda x: x, lambda x: [x, 0], lambda x: {'k': x}, lambda x: (0, {'b': [x], 'a': None})][o['zoo']]
+    kw = {'none_is_leaf': o['nil']}
+    fails = []
+    for np_, mp in zoo:
+        for nf, mf in zoo:
+            p, f = wrap(mp()), wrap(mf())
+            same = (type(mp()) is type(mf()) and len(mp()) == len(mf())) or {np_, nf} == {'deque', 'deque-maxlen'}
+            sp, sf = optree.tree_structure(p, **kw), optree.tree_structure(f, **kw)
+            got = {
+                'flatten_up_to': outcome(lambda: sp.flatten_up_to(f))[0] == 'ok',
+                'is_prefix': bool(sp.is_prefix(sf)),
+                '<=': bool(sp <= sf),
+                'is_suffix': bool(sf.is_suffix(sp)),
+                'prefix_errors': outcome(lambda: optree.prefix_errors(p, f, **kw)) == ('ok', []),
+                'tree_map-with-rest': outcome(lambda: optree.tree_map(lambda a, b: 0, p, f, **kw))[0] == 'ok',
+                'broadcast_prefix': outcome(lambda: optree.broadcast_prefix(p, f, **kw))[0] == 'ok',
+            }
+            r = outcome(lambda: sp.flatten_up_to(f))
+            if r[0] == 'err' and r[1] != 'ValueError':
+                fails.append({'key': 'zoo-exception-type', 'what': f'flatten_up_to({np_} spec, {nf} tree) raised {r[1]}'})
+            for k, v in got.items():
+                if v != same:
+                    fails.append({'key': f'zoo-{k}', 'what': f'prefix {np_} vs full {nf} (wrapping {o["zoo"]}): {k} says '
+                                  f'{"match" if v else "mismatch"}, the node types are {"the same" if same else "different"}'})
+    return fails
+
+
 def oracle(impl, o):
     import optree
+    if o.get('class') == 'zoo':
+        return _zoo(o)
     u = impl.u
     fails = []
     p = u.obj(parse(o['p']))
